@@ -321,6 +321,74 @@ struct Reg
 		check_view(i, "reopen_bind");
 	}
 
+	// a datagram is on its way to a UDP socket that, before it arrives, is closed, opened again and bound to another
+	// endpoint: it was addressed to a binding the socket no longer holds and must not reach it
+	std::unique_ptr<udp::socket> stray_sender;
+	void do_inflight_rebind(int i, int64_t arg)
+	{
+		Obj& o = objs[i];
+		if (o.kind != 2 || !o.open || !o.bound || o.recv_pending || plan.c("lat") <= 0) return;
+		model::Ep const old = o.ep;
+		bool const v4 = o.v4;
+		// another free port on the same address
+		model::Ep fresh = old;
+		bool found = false;
+		for (int k = 0; k < k_nports && !found; ++k)
+		{
+			fresh.port = k_ports[(uint64_t(arg) + uint64_t(k)) % uint64_t(k_nports)];
+			if (fresh.port != old.port && !reg.taken(1, fresh) && !tainted.count({1, fresh})) found = true;
+		}
+		if (!found) return;
+		int const from = o.node; // any node with an address of that family will do: its own
+		error_code ec;
+		stray_sender.reset(new udp::socket(*ioc[size_t(from)]));
+		stray_sender->open(v4 ? udp::v4() : udp::v6(), ec);
+		stray_sender->non_blocking(true);
+		// an explicit port outside everything the run binds or probes (an implicit bind would take an ephemeral port the
+		// model knows nothing about)
+		{
+			auto const mine = own(from, v4);
+			if (mine.empty()) { stray_sender.reset(); return; }
+			stray_sender->bind(udp::endpoint(ip::make_address(mine.front()), uint16_t(47000 + i)), ec);
+			if (ec) { stray_sender.reset(); return; }
+		}
+		uint8_t const msg[5] = {0xEE, uint8_t(i), 1, 2, 3};
+		stray_sender->send_to(asio::buffer(msg), udp::endpoint(ip::make_address(old.addr), uint16_t(old.port)), 0, ec);
+		if (ec) { stray_sender.reset(); return; }
+		do_close(i);
+		do_open(i, v4);
+		if (!o.open || ctx.violated) { stray_sender.reset(); return; }
+		o.u->bind(udp::endpoint(ip::make_address(fresh.addr), uint16_t(fresh.port)), ec);
+		ctx.tr.rec("inflight_rebind", {i, ec.value()}, {fresh.port});
+		if (ec) { stray_sender.reset(); fail("registry.bind.refused", "bind of a re-opened UDP socket to the free endpoint " + eps(fresh) + " failed with " + errname(ec.value())); return; }
+		o.bound = true; o.ep = fresh;
+		reg.bind(1, fresh, i);
+		universe.insert({1, fresh});
+		rbuf[i].assign(64, 0);
+		o.recv_pending = true;
+		int const g = o.gen;
+		o.u->async_receive_from(asio::buffer(rbuf[i]), rfrom[i], [this, i, g](error_code const& rec, std::size_t n) {
+			++ctx.handlers;
+			if (objs[i].gen != g) return;
+			objs[i].recv_pending = false;
+			if (rec) return;
+			udp_got.emplace_back(i, std::vector<uint8_t>(rbuf[i].begin(), rbuf[i].begin() + long(n)));
+		});
+		sim->run();
+		for (auto it = udp_got.begin(); it != udp_got.end();)
+		{
+			if (it->second.size() == 5 && it->second[0] == 0xEE)
+			{
+				fail("registry.probe.udp_reached_stale", "a datagram sent to " + eps(old) + " was delivered to object " + std::to_string(it->first)
+					+ ", which had been closed, re-opened and bound to " + eps(fresh) + " while the datagram was on its way");
+				it = udp_got.erase(it);
+			}
+			else ++it;
+		}
+		stray_sender.reset();
+		ctx.hit("datagram_in_flight_across_rebind");
+	}
+
 	void do_destroy(int i)
 	{
 		model_release(i);
@@ -403,6 +471,8 @@ struct Reg
 			if (mine.empty()) return;
 			model::Ep const want{mine.front(), k_ports[(accepted.size() * 3 + size_t(i)) % size_t(k_nports)]};
 			if (reg.taken(0, want) || tainted.count({0, want})) return;
+			// a connection that was already waiting has been put into the target by async_accept itself: hands off
+			if (accept_into[i]->is_open()) return;
 			error_code ec;
 			accept_into[i]->open(o.v4 ? tcp::v4() : tcp::v6(), ec);
 			accept_into[i]->bind(tcp::endpoint(ip::make_address(want.addr), uint16_t(want.port)), ec);
@@ -661,6 +731,7 @@ struct Reg
 			else if (o.op == "bind") do_bind(i, o.b, o.c);
 			else if (o.op == "close") do_close(i);
 			else if (o.op == "reopen_bind") do_reopen_bind(i);
+			else if (o.op == "inflight_rebind") do_inflight_rebind(i, o.c);
 			else if (o.op == "destroy") do_destroy(i);
 			else if (o.op == "move") do_move(i);
 			else if (o.op == "listen") do_listen(i);
@@ -674,6 +745,7 @@ struct Reg
 		ctx.sim_ns = now_ns();
 		accepted.clear();
 		for (auto& a : accept_into) a.reset();
+		stray_sender.reset();
 		for (auto& o : objs) { o.t.reset(); o.a.reset(); o.u.reset(); }
 		ioc.clear();
 		sim.reset();
@@ -747,7 +819,8 @@ struct RegistryEngine : Engine
 			Op o;
 			o.a = int64_t(rng.below(uint64_t(no)));
 			double const u = rng.unit();
-			if (u < 0.06) { o.op = "reopen_bind"; }
+			if (u < 0.04) { o.op = "reopen_bind"; }
+			else if (u < 0.06) { o.op = "inflight_rebind"; o.c = int64_t(rng.below(64)); }
 			else if (u < 0.12) { o.op = "open"; o.b = rng.chance(0.75) ? 0 : 1; }
 			else if (u < 0.55) { o.op = "bind"; o.b = int64_t(rng.below(8)); o.c = int64_t(rng.below(64)); }
 			else if (u < 0.65) o.op = "close";
